@@ -77,7 +77,13 @@ func (api StoreAPI) unsafeGenesisInsertDenom(
 ) {
 	denom := tftypes.DenomStr(genDenom.Denom).MustToStruct()
 	admin := genDenom.AuthorityMetadata.Admin
+	// x/bank is initialized first: keep metadata that its genesis already holds
+	// (e.g. set through MsgSetDenomMetadata) instead of resetting it to the default.
+	bankMetadata, hasBankMetadata := api.bankKeeper.GetDenomMetaData(ctx, genDenom.Denom)
 	api.unsafeInsertDenom(ctx, denom, admin)
+	if hasBankMetadata {
+		api.bankKeeper.SetDenomMetaData(ctx, bankMetadata)
+	}
 }
 
 // HasDenom: True if the denom has already been registered.
